@@ -96,6 +96,8 @@ pub fn eval(ctx: &Ctx, case: &Case) {
     let (ke, ra, rb) = (hb(&cfg.ke), hb(&cfg.ra), hb(&cfg.rb));
     let (ida, idb) = (ident(&cfg.ida, ctx.seed), ident(&cfg.idb, ctx.seed));
     let n = &sm9::params().n;
+    // tag "…public-only…": the parties hold the master PUBLIC key only (the secret field of the object is a dummy)
+    let ke = if case.tag.contains("public-only") { BigUint::from(1u32) } else { ke };
     // tag ".../Zq=<name>/Zp=<name>": the key objects hold de_A, de_B (G2) and Ppub-e (G1) in those Jacobian representations
     let (msk, key_a, key_b) = match z_names(&case.tag) {
         Some((zq, zp)) => {
@@ -234,7 +236,7 @@ pub fn replay(ctx: &Arc<Ctx>, v: &Value) {
 pub fn run(ctx: &Arc<Ctx>) {
     refmodels::selftest::run(&["sm3", "sm9"]).unwrap_or_else(|e| ctx.machinery_error(format!("reference self-test failed: {}", e)));
     let n = sm9::params().n.clone();
-    ctx.set_rule("stateright BFS over the man-in-the-middle choices for the two deliveries R_A->B and R_B->A, each in {pass, re-randomised Jacobian representation, affine as decoded from the 65-byte wire form, -R, 2R, P1, off-curve, point at infinity}, on the real exch_step_1a / 1b / 2a with ephemeral scalars fixed through the RNG seam, per configuration (master {Annex ke, seeded} x identity pairs {Alice/Bob, ''/x, seeded} and, on honest runs, identities a normalising implementation would alter: trailing / leading white space, line ends, NUL, case, trailing hid byte); honest paths for every klen 1..=128 (thorough 400) and klen in {8160, 8191, 8192, 8193, 8225}; key objects holding Ppub-e / de in Jacobian representations with structured Z. Invariant: honest deliveries (incl. re-randomised) give SK_A = SK_B = KDF(ID_A||ID_B||R_A||R_B||g1||g2||g3) of the reference (incl. the GM/T 0044.5 example); an off-curve R is refused by the step that receives it; any other altered R makes the two keys differ; no panic.");
+    ctx.set_rule("stateright BFS over the man-in-the-middle choices for the two deliveries R_A->B and R_B->A, each in {pass, re-randomised Jacobian representation, affine as decoded from the 65-byte wire form, -R, 2R, P1, off-curve, point at infinity}, on the real exch_step_1a / 1b / 2a with ephemeral scalars fixed through the RNG seam, per configuration (master {Annex ke, seeded} x identity pairs {Alice/Bob, ''/x, seeded} and, on honest runs, identities a normalising implementation would alter: trailing / leading white space, line ends, NUL, case, trailing hid byte); honest paths for every klen 1..=128 (thorough 400) and klen in {8160, 8191, 8192, 8193, 8225}; key objects holding Ppub-e / de in Jacobian representations with structured Z; master-key objects that hold only the public key. Invariant: honest deliveries (incl. re-randomised) give SK_A = SK_B = KDF(ID_A||ID_B||R_A||R_B||g1||g2||g3) of the reference (incl. the GM/T 0044.5 example); an off-curve R is refused by the step that receives it; any other altered R makes the two keys differ; no panic.");
     let mut g = SplitMix::new(ctx.seed, "c17");
     let annex = Config { ke: "0002E65B0762D042F51F0D23542B13ED8CFA2E9A0E7206361E013A283905E31F".into(), ida: "Alice".into(), idb: "Bob".into(), ra: "00005879DD1D51E175946F23B1B41E93BA31C584AE59A426EC1046A4D03B06C8".into(), rb: "00018B98C44BEF9F8537FB7D071B2C928B3BC65BD3D69E1EEE213564905634FE".into() };
     let seeded_ke = hexbig(&g.nonzero_below(&n));
@@ -299,6 +301,9 @@ pub fn run(ctx: &Arc<Ctx>) {
     }
     for (i, zq) in Z2_NAMES.iter().enumerate() {
         cases.push(Case { cfg: cfgs[i % 2].clone(), klen: 16, adv: [0, 7], tag: format!("honest/key-objects/Zq={}/Zp={}", zq, Z1_NAMES[i % Z1_NAMES.len()]) });
+    }
+    for (i, c) in cfgs.iter().take(2).enumerate() {
+        cases.push(Case { cfg: c.clone(), klen: 16 + i, adv: [0, 7], tag: "honest/public-only-master-key-object".into() });
     }
     // key lengths around the first carry of the KDF block counter into its second byte (256 blocks of 32 bytes)
     for klen in [8160usize, 8191, 8192, 8193, 8225] {
